@@ -73,6 +73,8 @@ pub struct Monitor {
     inbound_q2: Vec<u16>,
     inbound_unacked: VecDeque<Pk>,
     outs: Vec<(String, u16)>,
+    /// written on an earlier connection, announcement not surfaced yet
+    stale_outs: VecDeque<(String, u16)>,
     wire_kinds: Vec<(String, u16)>,
     viols: Vec<(String, String)>,
     outcome: u64,
@@ -144,6 +146,7 @@ impl Monitor {
             inbound_q2: vec![],
             inbound_unacked: VecDeque::new(),
             outs: vec![],
+            stale_outs: VecDeque::new(),
             wire_kinds: vec![],
             viols: vec![],
             outcome: 0,
@@ -225,6 +228,15 @@ impl Monitor {
 
     pub fn on_new_connection(&mut self) {
         self.conn += 1;
+        // announcements of packets written on the connection that failed may still sit in
+        // the event queue behind the error: they surface (once, in order) on the next one
+        if self.outs.len() <= self.wire_kinds.len() && self.wire_kinds[..self.outs.len()] == self.outs[..] {
+            self.stale_outs = self.wire_kinds[self.outs.len()..].iter().cloned().collect();
+        } else if self.is("C10") {
+            let d = format!("when the connection ended: announced {:?}, written {:?}", self.outs, self.wire_kinds);
+            self.v("announcement_mismatch", d);
+            self.stale_outs.clear();
+        }
         self.wire.clear();
         self.wire_kinds.clear();
         self.outs.clear();
@@ -599,7 +611,11 @@ impl Monitor {
             }
             Ev::Out(kind, id) => {
                 if kind != "AwaitAck" {
-                    self.outs.push((kind.clone(), *id));
+                    if self.stale_outs.front() == Some(&(kind.clone(), *id)) {
+                        self.stale_outs.pop_front();
+                    } else {
+                        self.outs.push((kind.clone(), *id));
+                    }
                 }
             }
             Ev::Err(e) => {
@@ -889,7 +905,7 @@ impl Monitor {
             self.acks_in_order,
             self.last_was_error,
             self.connect_seen_unanswered,
-            (&self.outs, &self.wire_kinds, &self.inbound_q2, &self.inbound_unacked),
+            (&self.outs, &self.wire_kinds, &self.inbound_q2, &self.inbound_unacked, &self.stale_outs),
             (self.last_ping_ms, self.ping_outstanding_since, self.conn_started_ms, self.healthy, self.effective_limit, self.expect_unsolicited, self.partial_outstanding),
             (&self.completed_rels, self.reuse_during_release, self.session_lost_with_unacked),
         ))
